@@ -13,7 +13,8 @@ LEVEL_TEXT = ("generated programs define part of their structs in private.h (onl
               "to a private struct.  With --headers-dir1/2 (or --header-file1/2) pointing at directories holding only public.h: a public "
               "change must keep bit 4 and name a using interface; a private change must give exit 0 with no using interface listed, while "
               "the control run without the options reports it.  --drop-private-types must give the same status and [C] interface set on "
-              "public changes.")
+              "public changes.  In a quarter of the cases a private struct is changed together with the public one: the public change "
+              "must still be reported.")
 LEVEL_NOTE = "header base names are distinct (public.h / private.h); the report need not be empty when a change is filtered (a 'filtered out' summary is printed)"
 ASSUMPTIONS = [LEVEL_NOTE]
 
@@ -46,18 +47,31 @@ def reach_public(prog, root):
     return out
 
 
+def near_privates(rec):
+    """names of the private structs that `rec` itself has (pointer) members of"""
+    near = set()
+    for f in (rec.fields if rec is not None else []):
+        t = f.type
+        while isinstance(t, (progen.Pointer, progen.Typedef, progen.Qualified, progen.Array)):
+            t = t.elem if isinstance(t, progen.Array) else t.to
+        if isinstance(t, progen.Record) and t.name and getattr(t, "where", "public") == "private":
+            near.add(t.name)
+    return near
+
+
 def case(ctx, i):
     rng = ctx.rng(i)
     r = core.CaseResult()
     d = ctx.casedir(i)
     want_private = (i % 2 == 1)
+    want_both = (i % 4 == 2)
     p = q = e = None
     for attempt in range(12):
         p = progen.generate(rng, wl.gen_opts(rng, ctx.tier, private_types=True, ntypes=rng.randint(6, 16)))
         privs = [t for t in p.types if isinstance(t, progen.Record) and getattr(t, "where", "public") == "private" and p.users_of(t)]
         if want_private and not privs:
             continue
-        for k in range(25):
+        for k in range(60 if want_both else 25):
             res = mutate.apply_random(mutate.BREAKING, p, rng, KINDS)
             if not res:
                 continue
@@ -65,6 +79,9 @@ def case(ctx, i):
             rec = p.find_type(e.type_name.split(":", 1)[1])
             is_priv = getattr(rec, "where", "public") == "private"
             if is_priv != want_private:
+                q = None
+                continue
+            if want_both and attempt < 8 and not near_privates(rec):
                 q = None
                 continue
             if not want_private:
@@ -80,6 +97,21 @@ def case(ctx, i):
             break
     if q is None:
         return r.skip("no-suitable-mutation")
+    both = False
+    if want_both:
+        # additionally change a private struct: the public change must still be reported
+        # preferably a private struct that the mutated public struct itself points to
+        near = near_privates(q.find_type(e.type_name.split(":", 1)[1]))
+        for k in range(60):
+            res = mutate.apply_random(mutate.BREAKING, q, rng, KINDS)
+            if not res:
+                continue
+            q2, e2 = res
+            rec2 = q.find_type(e2.type_name.split(":", 1)[1])
+            if rec2 is not None and getattr(rec2, "where", "public") == "private" and e2.type_name != e.type_name \
+                    and (not near or rec2.name in near or k >= 40):
+                q, both = q2, True
+                break
     cfg = wl.pick_config(rng, kinds=("so", "so", "exec"))
     try:
         a = cc.build(p, os.path.join(d, "a"), **cfg)
@@ -95,7 +127,8 @@ def case(ctx, i):
         hopts = ["--headers-dir1", os.path.join(d, "hdr_a"), "--headers-dir2", os.path.join(d, "hdr_b")]
     else:
         hopts = ["--header-file1", os.path.join(d, "hdr_a", "public.h"), "--header-file2", os.path.join(d, "hdr_b", "public.h")]
-    what = "%s on %s struct %s; %s; %s" % (e.kind, "private" if want_private else "public", e.type_name, style, wl.describe_cfg(cfg))
+    what = "%s on %s struct %s%s; %s; %s" % (e.kind, "private" if want_private else "public", e.type_name,
+                                             " + a change to a private struct" if both else "", style, wl.describe_cfg(cfg))
     ctrl = wl.tool_run(ctx, "abidiff", [a, b], d)
     filt = wl.tool_run(ctx, "abidiff", hopts + [a, b], d)
     for res in (ctrl, filt):
@@ -108,7 +141,7 @@ def case(ctx, i):
     if rc_.unparsed or rf.unparsed:
         return r.inconclusive("unparsed-report-line:" + (rc_.unparsed + rf.unparsed)[0][:80])
     r.evaluations += 1
-    r.add("targets", ("private" if want_private else "public") + ":" + style)
+    r.add("targets", ("private" if want_private else "public+private" if both else "public") + ":" + style)
 
     def changed(rep):
         s = set()
@@ -125,7 +158,8 @@ def case(ctx, i):
                       % (filt.rc, sorted(changed(rf))[:4], what), control=ctrl.brief(), filtered=filt.brief())
     else:
         if not (filt.rc and filt.rc & 4) or not (changed(rf) & set(e.affected)):
-            r.violate("oracle:C26:public-change-filtered:%s:%s" % (style, e.kind),
+            r.violate("oracle:C26:public-change-filtered-together-with-private-change:%s" % e.kind if both else
+                      "oracle:C26:public-change-filtered:%s:%s" % (style, e.kind),
                       "a change to a struct defined in the public header is no longer reported with the header options: exit %s, interfaces %s, expected one of %s (%s)"
                       % (filt.rc, sorted(changed(rf))[:4], e.affected[:4], what), control=ctrl.brief(), filtered=filt.brief())
         drop = wl.tool_run(ctx, "abidiff", hopts + ["--drop-private-types", a, b], d)
@@ -135,7 +169,7 @@ def case(ctx, i):
         else:
             rd = report.Report(drop.stdout)
             if not rd.unparsed and (drop.rc != filt.rc or changed(rd) != changed(rf)):
-                r.violate("oracle:C26:drop-private-types-changes-verdict:%s" % e.kind,
+                r.violate("oracle:C26:drop-private-types-changes-verdict%s:%s" % ("-together-with-private-change" if both else "", e.kind),
                           "--drop-private-types changes the verdict on a public change: exit %s vs %s, interfaces %s vs %s (%s)"
                           % (drop.rc, filt.rc, sorted(changed(rd))[:4], sorted(changed(rf))[:4], what), filtered=filt.brief(), dropped=drop.brief())
     r.nontrivial = True
